@@ -157,6 +157,25 @@ pub fn handle(op: &str, a: &[&str]) -> Option<Resp> {
             if let (Ok(ld), Some(sc)) = (&l, &sc) {
                 fail = nb_eq(&lossy_content(ld), sc).map(|w| format!("readers disagree: {}", w));
             }
+            // the lossy reader's other front end: `from_reader` over the same bytes, whole and
+            // through short reads (1 and 3 bytes per call: a multi-byte character then lies across
+            // two read() calls), reads what `from_str` reads (after seeded changes C06-r6m1 / C08-r6m1)
+            if fail.is_none() {
+                let want = show_lossy(&l);
+                let whole = lossy::Deb822::from_reader(s.as_bytes());
+                if show_lossy(&whole) != want {
+                    fail = Some(format!("lossy from_reader differs from from_str: {} vs {}", show_lossy(&whole), want).chars().take(400).collect());
+                }
+                if fail.is_none() && !s.is_ascii() {
+                    for step in [1usize, 3] {
+                        let r = lossy::Deb822::from_reader(crate::deb::Dribble { data: s.as_bytes(), step });
+                        if show_lossy(&r) != want {
+                            fail = Some(format!("lossy from_reader over a reader returning {} byte(s) per call differs from from_str", step));
+                            break;
+                        }
+                    }
+                }
+            }
             Some(Resp::with(format!("L:{} S:{}", show_lossy(&l), sv), fail))
         }
         ("deb.docl", [ls, fnl]) => {
@@ -213,6 +232,21 @@ pub fn handle(op: &str, a: &[&str]) -> Option<Resp> {
                     match &sc {
                         Some(sc) => fail = nb_eq(sc, &d).map(|w| format!("lossless content differs: {}", w)),
                         None => fail = Some("printed text rejected by the lossless reader".to_string()),
+                    }
+                }
+                // the reader's other front end reads the printed text the same way: whole, and
+                // through short reads when the text has multi-byte characters
+                if fail.is_none() {
+                    let want = show_lossy(&l);
+                    if show_lossy(&lossy::Deb822::from_reader(text.as_bytes())) != want {
+                        fail = Some("lossy from_reader does not read the printed text as from_str does".to_string());
+                    } else if !text.is_ascii() {
+                        for step in [1usize, 3] {
+                            if show_lossy(&lossy::Deb822::from_reader(crate::deb::Dribble { data: text.as_bytes(), step })) != want {
+                                fail = Some(format!("lossy from_reader over a reader returning {} byte(s) per call does not read the printed text as from_str does", step));
+                                break;
+                            }
+                        }
                     }
                 }
             }
@@ -309,6 +343,16 @@ pub fn generate_c08(tier: &str, seed: u64, out: &mut Out) {
         }
     }
     out.req("deb.lprint", &["-".to_string()]);
+    // values larger than a reader's block with multi-byte characters across the block boundaries
+    for ch in ["é", "€", "😀"] {
+        let mut lines: Vec<String> = vec![];
+        let mut n = 0;
+        while n < 20_000 {
+            lines.push(ch.repeat(60));
+            n += 60 * ch.len() + 2;
+        }
+        out.req("deb.lprint", &[enc_doc(&vec![vec![("A".to_string(), lines.join("\n"))], vec![("B".to_string(), ch.to_string())]])]);
+    }
     let n = if thorough { 1_500_000 } else { 20_000 };
     for i in 0..n {
         let d = random_content(&mut rng, i % 4 == 0);
@@ -348,6 +392,9 @@ pub fn generate_c08(tier: &str, seed: u64, out: &mut Out) {
 
 pub fn generate_c06(tier: &str, seed: u64, out: &mut Out) {
     for t in gen_texts(tier, seed) {
+        out.req("deb.both", &[es(&t)]);
+    }
+    for t in crate::deb::block_boundary_docs() {
         out.req("deb.both", &[es(&t)]);
     }
     let thorough = tier == "thorough";
